@@ -196,11 +196,107 @@ def validate(events, name, module="TraceFieldOps.tla", cfg="TraceFieldOps.cfg", 
 
 
 # ------------------------------------------------------------------------------------------------
-def record(binary, seed, n, name, tier, only=None):
+# mechanism E: word-size-scaled algorithm models (design level) and lifting
+# ------------------------------------------------------------------------------------------------
+M64 = P["f64"]
+NIB = {0: 0, 1: 1, 2: 2, 15: 2**32 - 1, 14: 2**32 - 2, 8: 2**31, 7: 2**31 - 1}
+
+
+def lift_nibble(n, rng):
+    """nibble of a K = 4 model word |-> 32-bit limb of the same band"""
+    return NIB[n] if n in NIB else rng.randrange(n << 28, (n + 1) << 28)
+
+
+def lift_word(v, rng):
+    return (lift_nibble(v >> 4, rng) << 32) | lift_nibble(v & 15, rng)
+
+
+def _tlc_job(arg):
+    module, cfg, workers = arg
+    r = vf.tlc(module, cfg, cwd=SPECDIR, workers=workers, timeout=1500)
+    return cfg, r.ok, r.error, r.distinct, r.generated, r.wall, r.tagged("FINDING"), r.tagged("CLASS")
+
+
+def run_scaled_models(ck, tier):
+    """TLC explores the scaled transcriptions of f64/mod.rs and f62/mod.rs exhaustively.  The models of
+    the routines as they are in the tree (repaired: FixDouble/FixMulSmall/FixInv = TRUE) must satisfy
+    `Correct` (a failure is a design-level/tool error, exit 2).  The as-found variants print the design
+    findings (kept as regression generators).  Returns lifted f64 cases for the recorder."""
+    fixed = [("Goldilocks.tla", "Goldilocks_K4_fixed.cfg"), ("Mont62.tla", "Mont62_w8_fixed.cfg")]
+    found = [("Goldilocks.tla", "Goldilocks_K4_found.cfg"), ("Mont62.tla", "Mont62_w8_found.cfg")]
+    if tier == "thorough":
+        fixed += [("Goldilocks.tla", "Goldilocks_K2_fixed.cfg"), ("Mont62.tla", "Mont62_w10_fixed.cfg")]
+        found += [("Goldilocks.tla", "Goldilocks_K2_found.cfg"), ("Mont62.tla", "Mont62_w10_found.cfg")]
+    jobs = [(m, c, 2) for m, c in fixed + found]
+    findings, classes = [], []
+    with concurrent.futures.ProcessPoolExecutor(max_workers=2) as ex:
+        for cfg, ok, error, distinct, generated, wall, fnd, cls in ex.map(_tlc_job, jobs):
+            ck.states += distinct
+            ck.transitions += generated
+            ck.part("design:" + cfg, tlc_states=distinct, tlc_generated=generated, tlc_wall_s=round(wall, 2),
+                    findings=len(fnd), classes=len(cls))
+            if not ok:
+                raise vf.ToolError("scaled model %s failed: %s" % (cfg, error))
+            if "_fixed" in cfg:
+                ck.require(not fnd, "repaired model %s printed findings" % cfg)
+            findings += fnd
+            classes += cls
+    # the as-found models must rediscover exactly the documented design findings (guards the models)
+    gold = {(f["op"]) for f in findings if "K" in f}
+    mont = {(f["op"], f["x"] == f["P"], f["note"]) for f in findings if "P" in f}
+    ck.require(gold == {"double", "mul_small"}, "as-found Goldilocks model findings changed: %s" % sorted(gold))
+    ck.require(mont == {("inv", True, "does not terminate")}, "as-found Mont62 model findings changed: %s" % sorted(mont))
+    band = sorted({f["x"] for f in findings if f.get("K") == 4 and f["op"] == "double"})
+    ck.require(band == list(range(121, 128)), "K=4 double findings are not the band [ceil(p/2), 2^(W-1)): %s" % band)
+    ck.part("design:findings", goldilocks_double_band_K4=band,
+            goldilocks_mul_small_pairs_K4=len([f for f in findings if f.get("K") == 4 and f["op"] == "mul_small"]),
+            mont62="inv does not terminate on representation P (zero as modulus), all other operations exact on [0,2P)")
+    # lifting to 64-bit operands (f64 base field); judged by TraceFieldOps on the real code
+    rng = ck.rng
+    lifted, seen = [], set()
+    for f in findings:
+        if f.get("K") != 4:
+            continue
+        for _ in range(2):
+            c = {"src": "finding", "op": f["op"], "x": lift_word(f["x"], rng), "y": 0, "k": lift_nibble(f["k"], rng)}
+            if c["x"] < M64:
+                lifted.append(c)
+    per = collections.defaultdict(list)
+    for c in classes:
+        per[(c["op"], tuple(c["fl"]))].append(c)
+    want = 40 if tier == "thorough" else 6
+    for key in sorted(per):
+        cs = per[key]
+        rng.shuffle(cs)
+        for c in cs[:want]:
+            x, y = lift_word(c["x"], rng), lift_word(c["y"], rng)
+            k = lift_nibble(c["y"] & 15, rng)
+            if x < M64 and y < M64 and (c["op"], x, y) not in seen:
+                seen.add((c["op"], x, y))
+                lifted.append({"src": "class", "op": c["op"], "x": x, "y": y, "k": k})
+    if tier != "thorough":
+        fl = [c for c in lifted if c["src"] == "finding"]
+        rng.shuffle(fl)
+        lifted = fl[:80] + [c for c in lifted if c["src"] == "class"]
+    ck.part("design:lifting", lifted_cases=len(lifted), from_findings=len([c for c in lifted if c["src"] == "finding"]),
+            carry_classes=len(per))
+    ck.require(len(per) >= 18 and len(lifted) > 100, "too few lifted cases / carry classes (%d / %d)" % (len(lifted), len(per)))
+    return lifted
+
+
+# ------------------------------------------------------------------------------------------------
+def record(binary, seed, n, name, tier, only=None, lifted=None):
     wd = vf.workdir("fields")
     path = os.path.join(wd, "%s-%d.ndjson" % (name, os.getpid()))
     args = ["record", str(seed), str(n), path, tier] + (only or [])
-    rc, out, err = vf.run_harness(binary, args, timeout=3000)
+    env = None
+    if lifted is not None:
+        lpath = os.path.join(wd, "%s-%d.lifted.ndjson" % (name, os.getpid()))
+        vf.write_ndjson(lpath, lifted)
+        env = {"WF_LIFTED": lpath}
+    rc, out, err = vf.run_harness(binary, args, timeout=3000, env=env)
+    if lifted is not None:
+        os.unlink(lpath)
     if rc != 0:
         raise vf.ToolError("recorder failed rc=%d: %s" % (rc, err[-2000:]))
     summary = json.loads(out.strip().splitlines()[-1])
@@ -247,6 +343,8 @@ def coverage(ck, events, summary):
                 classes[(e["f"], e[k])] += 1
         if e.get("dir"):
             classes[("dir", e["dir"])] += 1
+            if e["dir"].startswith("lifted") and e["op"] not in ("new", "from_mont", "eq"):
+                classes[("lifted-op", e["op"])] += 1
         if e["op"] == "eq":
             classes[("eq", e.get("eq"))] += 1
         if e["op"] == "exp":
@@ -262,6 +360,8 @@ def coverage(ck, events, summary):
     ck.require(classes[("f62", "zeroM")] > 0, "f62 zero-as-M representation not exercised")
     ck.require(classes[("dir", "f64-double-band")] > 0 and classes[("dir", "f64-mul_small-band")] > 0 and classes[("dir", "f62-zero-as-M")] > 0,
                "directed representation-class scenarios missing")
+    ck.require(all(classes[("lifted-op", o)] > 0 for o in ("add", "sub", "mul", "double", "square", "neg", "mul_small")),
+               "lifted cases of the scaled model did not reach the recorder")
     ck.require(classes[("eq", 1)] > 100 and classes[("eq", 0)] > 20, "== outcomes not both exercised")
     ck.require(classes[("exp-links", 3)] + classes[("exp-links", 4)] > 8, "no exp events with >= 48-bit exponents")
     ck.part("recorder", events=len(events), stuck_calls=summary["stuck"], skipped_after_repeated_timeouts=summary["skipped"],
@@ -269,14 +369,23 @@ def coverage(ck, events, summary):
     return len(scen)
 
 
+def harness_binary():
+    # VERIF_FIELDS_BINARY: run against a harness built from a private, mutated copy of the sources
+    # (mutation experiments without touching /repo); never set in normal runs
+    return os.environ.get("VERIF_FIELDS_BINARY") or vf.build_harness("fields")
+
+
 def run(ck, tier):
-    binary = vf.build_harness("fields")
+    binary = harness_binary()
     rc, out, err = vf.run_harness(binary, ["selftest"], timeout=120)
     if rc != 0:
         raise vf.ToolError("big-integer helper self-test failed: " + err[-500:])
-    n = 1500 if tier == "thorough" else 55
+    n = 1000 if tier == "thorough" else 55
     t0 = time.time()
-    events, summary = record(binary, ck.seed, n, "c10", tier)
+    lifted = run_scaled_models(ck, tier)
+    vf.log("[c10] scaled models explored, %d lifted cases, in %.1fs" % (len(lifted), time.time() - t0))
+    t0 = time.time()
+    events, summary = record(binary, ck.seed, n, "c10", tier, lifted=lifted)
     vf.log("[c10] recorded %d events (%d stuck, %d skipped) in %.1fs" % (len(events), summary["stuck"], summary["skipped"], time.time() - t0))
     corrupt = os.environ.get("VERIF_C10_CORRUPT")
     if corrupt:
@@ -312,9 +421,15 @@ def run(ck, tier):
 
 
 def replay(ck, path):
-    binary = vf.build_harness("fields")
+    binary = harness_binary()
     obj = json.load(open(path))["replay"]
-    events, summary = record(binary, obj["seed"], 0, "c10-replay", obj.get("tier", "quick"), only=["%d:%d" % (obj["combo"], obj["sc"])])
+    lifted = None
+    if obj["sc"] >= 1000000:
+        ck.seed = obj["seed"]
+        ck.rng.seed(obj["seed"])
+        lifted = run_scaled_models(ck, obj.get("tier", "quick"))
+    events, summary = record(binary, obj["seed"], 0, "c10-replay", obj.get("tier", "quick"),
+                             only=["%d:%d" % (obj["combo"], obj["sc"])], lifted=lifted)
     rejected, states, trans = validate(events, "c10-replay", nproc=1)
     ck.states += states
     ck.transitions += trans
